@@ -87,6 +87,11 @@ func c02Strata() []*gast.Grammar {
 		// action inside an alternative that is abandoned later
 		mk(r("S", gast.C(gast.S(gast.A(gast.Lab("a", gast.Plus(gast.Cl(gast.Chars("a\n")))), 1, mon.Spec{}), gast.L("x")),
 			gast.A(gast.Lab("b", gast.Star(gast.Dot())), 2, mon.Spec{})))),
+		// a block re-reached (a cache hit under Memoize) whose match spans a newline followed by
+		// multi-byte runes; the blocks after it must see the right line and column
+		mk(r("S", gast.C(gast.S(gast.Lab("a", gast.Ref("B")), gast.L("!"), gast.A(gast.Star(gast.Dot()), 1, mon.Spec{})), gast.S(gast.Lab("a", gast.Ref("B")), gast.L("?"), gast.Lab("b", gast.Ref("T")), gast.A(gast.Star(gast.Dot()), 2, mon.Spec{})))),
+			r("B", gast.A(gast.S(gast.Plus(gast.Cl(gast.Chars("xé"))), gast.L("\n"), gast.Star(gast.Cl(gast.Chars("é世")))), 3, mon.Spec{})),
+			r("T", gast.A(gast.Plus(gast.Cl(gast.Chars("zé\n"))), 4, mon.Spec{}))),
 	}...)
 }
 
@@ -125,7 +130,7 @@ func C05(c *Ctx) {
 		"action and predicate blocks that scribble on the store, globalStore log appends in every block kind; every block records a deep snapshot of c.state and the globalStore log; " +
 		"oracle = the model's trace where state is a persistent value (a failing expression returns the store it was given). " +
 		"distinct_nontrivial = distinct (grammar, input) with >=1 state block event, >=1 backtrack after it and >=3 events")
-	c.Assume("throw/recover and Memoize are excluded (doc.go makes the grammar author responsible there)")
+	c.Assume("throw/recover with state is only exercised in fixed strata (doc.go makes the grammar author responsible there); Memoize(true) runs in a pass of its own whose expected divergence is known finding F22")
 	p := pegProfile()
 	p.W[gast.StateCode] = 14
 	p.W[gast.Action] = 10
@@ -148,10 +153,70 @@ func C05(c *Ctx) {
 		StalePS:     "F02-stale-pred-pos",
 		KeepGrammar: func(g *gast.Grammar) bool { g.Finalize(); return g.UsesState },
 	}
+	c.runKnownF22()
 	c.ModelCheck(cfg)
+	// Memoize(true): nothing in the documentation exempts it, and it does lose state changes (known
+	// finding F22). The pass still decides everything else: an observation must equal either the
+	// pure model or, field by field and block by block, the model variant that caches results per
+	// (expression, offset) as Memoize does.
+	mcfg := *cfg
+	mcfg.NGrammars = c.N(40, 500)
+	mcfg.FlagSets = [][]string{{}}
+	mcfg.OptSets = []OptSet{{Name: "memoize", Memo: true}, {Name: "memoize,initstate=4", Memo: true, Init: 4}}
+	c.ModelCheck(&mcfg)
 	// state store through the left-recursion runtime (state changes of discarded growth attempts are dropped)
 	c.lrPass(5, c.N(40, 400), CmpState|CmpVal|CmpEnd|CmpOK, []OptSet{{Name: "default"}, {Name: "initstate=4", Init: 4}}, false,
 		func(m *ref.Result) bool { return m.LRGrowths >= 1 && m.KindsEval[gast.StateCode] >= 1 })
+}
+
+// runKnownF22 executes the two fixed witnesses of known finding F22.
+func (c *Ctx) runKnownF22() {
+	found := false
+	for _, id := range c.KnownIDs() {
+		if id == "F22-memo-state-not-replayed" {
+			found = true
+		}
+	}
+	if !found {
+		return
+	}
+	num := func() *gast.Expr { return gast.Plus(gast.Cl(&gast.ClassSpec{Ranges: [][2]rune{{'0', '9'}}})) }
+	// (a) Memoize(true), no left recursion: S <- ( A "!" / A "?" ) &{obs}; A <- #{n++} [0-9]+ on "1?"
+	ga := &gast.Grammar{Rules: []*gast.Rule{
+		{Name: "S", Expr: gast.S(gast.C(gast.S(gast.Ref("A"), gast.L("!")), gast.S(gast.Ref("A"), gast.L("?"))), gast.AndC(2, mon.Spec{}))},
+		{Name: "A", Expr: gast.S(gast.St(1, mon.Spec{S: 1}), num())},
+	}}
+	// (b) no option at all, the always-on memo of a left-recursive rule:
+	// E1 <- E1 "<" b:E2 "!" / E1 "<" b:E2 / E2; E2 <- E2 "+" At / At; At <- #{n++} [0-9]+ on "1<2"
+	gb := &gast.Grammar{Rules: []*gast.Rule{
+		{Name: "S", Expr: gast.S(gast.Ref("E1"), gast.AndC(2, mon.Spec{}), gast.Star(gast.Dot()))},
+		{Name: "E1", Expr: gast.C(gast.S(gast.Ref("E1"), gast.L("<"), gast.Lab("b", gast.Ref("E2")), gast.L("!")), gast.S(gast.Ref("E1"), gast.L("<"), gast.Lab("b", gast.Ref("E2"))), gast.Ref("E2"))},
+		{Name: "E2", Expr: gast.C(gast.S(gast.Ref("E2"), gast.L("+"), gast.Ref("At")), gast.Ref("At"))},
+		{Name: "At", Expr: gast.S(gast.St(1, mon.Spec{S: 1}), num())},
+	}}
+	ga.Finalize()
+	gb.Finalize()
+	fails := false
+	bt := c.BuildUnits([]*gast.Grammar{ga}, [][]string{{}}, false, nil)
+	if bt.Units[0].OK {
+		r := bt.Run([]*mon.Case{{ID: "f22a", Pkg: bt.Units[0].Pkg, Input: []byte("1?"), Memo: true}}, runOptsDefault)["f22a"]
+		m := ref.Run(ga, []byte("1?"), ref.Opts{})
+		fails = fails || r == nil || r.FinalState != m.FinalState
+	} else {
+		c.Broken("F22 witness (a) does not build: " + bt.Units[0].Fail)
+	}
+	bt.Close()
+	bt = c.BuildUnits([]*gast.Grammar{gb}, [][]string{{"-support-left-recursion"}}, false, func(int) bool { return true })
+	if bt.Units[0].OK {
+		r := bt.Run([]*mon.Case{{ID: "f22b", Pkg: bt.Units[0].Pkg, Input: []byte("1<2")}}, runOptsDefault)["f22b"]
+		m := ref.Run(gb, []byte("1<2"), ref.Opts{LR: true})
+		fails = fails || r == nil || r.FinalState != m.FinalState
+	} else {
+		c.Broken("F22 witness (b) does not build: " + bt.Units[0].Fail)
+	}
+	bt.Close()
+	c.MarkKnownStillFails("F22-memo-state-not-replayed", fails)
+	c.Eval(2)
 }
 
 // rollbackStrata: a state change (bare, inside an action, inside a label, inside a group) at the
